@@ -129,6 +129,15 @@ pub fn check_nav(rep: &mut Report, ctx: &J, src: &str, v: &Value, cm: &CodeMap, 
 			}
 		}
 	}
+	// indices far past the end (up to the largest representable one) are rejected with the remaining distance as well
+	for i in [n + 1000, usize::MAX / 2, usize::MAX - 1, usize::MAX] {
+		if i >= n {
+			match v.get_fragment(i) {
+				Err(rem) if rem == i - n => (),
+				other => fail("get_fragment far past the end must be rejected with the remaining distance", json!({"i": i.to_string(), "n": n, "observed": other.err().map(|e| e.to_string())})),
+			}
+		}
+	}
 	// mapped iterators and lookups of every container
 	for c in nav["containers"].as_array().unwrap() {
 		let at = c["at"].as_u64().unwrap() as usize;
